@@ -49,13 +49,17 @@ fn rand_ent(r: &mut Rng, re: f64, names: &[&str], p_tag: f64) -> Ent {
     Ent { re, vars, d, h }
 }
 
-fn solve_kind(fnname: &str, kind: &str, a: &[Vec<Ent>], b: &[Ent], lsq: bool) -> (String, Vec<Value>) {
+/// `colmajor`: the matrix is handed over as a column-major (Fortran-contiguous) view - the transpose of the array that
+/// stores its transpose - which is what `m.t()` or a Fortran-ordered numpy array looks like to the solver
+fn solve_kind(fnname: &str, kind: &str, a: &[Vec<Ent>], b: &[Ent], lsq: bool, colmajor: bool) -> (String, Vec<Value>) {
     let (m, n) = (a.len(), a[0].len());
     macro_rules! run {
         ($mk:expr, $js:expr) => {{
             let am = Array2::from_shape_vec((m, n), a.iter().flatten().map($mk).collect()).unwrap();
+            let at = Array2::from_shape_vec((n, m), (0..n).flat_map(|j| (0..m).map(move |i| &a[i][j])).map($mk).collect()).unwrap();
+            let av = if colmajor { at.t() } else { am.view() };
             let bv = Array1::from_vec(b.iter().map($mk).collect());
-            match guard(|| dsolve(&am.view(), &bv.view(), lsq)) {
+            match guard(|| dsolve(&av, &bv.view(), lsq)) {
                 Outcome::Ok(x) => ("ok".to_string(), x.iter().map($js).collect()),
                 Outcome::Panic(_) => ("panic".to_string(), vec![]),
             }
@@ -64,8 +68,10 @@ fn solve_kind(fnname: &str, kind: &str, a: &[Vec<Ent>], b: &[Ent], lsq: bool) ->
     macro_rules! frun {
         ($mk:expr, $js:expr) => {{
             let am = Array2::from_shape_vec((m, n), a.iter().flatten().map(|e| e.re).collect()).unwrap();
+            let at = Array2::from_shape_vec((n, m), (0..n).flat_map(|j| (0..m).map(move |i| a[i][j].re)).collect()).unwrap();
+            let av = if colmajor { at.t() } else { am.view() };
             let bv = Array1::from_vec(b.iter().map($mk).collect());
-            match guard(|| fdsolve(&am.view(), &bv.view(), lsq)) {
+            match guard(|| fdsolve(&av, &bv.view(), lsq)) {
                 Outcome::Ok(x) => ("ok".to_string(), x.iter().map($js).collect()),
                 Outcome::Panic(_) => ("panic".to_string(), vec![]),
             }
@@ -110,18 +116,20 @@ fn ent_json(e: &Ent, kind: &str) -> Value {
 }
 
 fn emit(o: &mut Out, key: &str, fnname: &str, kind: &str, a: &[Vec<Ent>], b: &[Ent], lsq: bool, r: &mut Rng) {
-    let (oc, x) = solve_kind(fnname, kind, a, b, lsq);
+    let (oc, x) = solve_kind(fnname, kind, a, b, lsq, false);
     // the same system with its rows permuted
     let mut perm: Vec<usize> = (0..a.len()).collect();
     r.shuffle(&mut perm);
     let a2: Vec<Vec<Ent>> = perm.iter().map(|i| a[*i].clone()).collect();
     let b2: Vec<Ent> = perm.iter().map(|i| b[*i].clone()).collect();
-    let (oc2, x2) = solve_kind(fnname, kind, &a2, &b2, lsq);
+    // (and, every other time, stored column by column: the memory layout of the view is not part of the system either)
+    let colmajor = r.coin();
+    let (oc2, x2) = solve_kind(fnname, kind, &a2, &b2, lsq, colmajor);
     let akind = if fnname == "fdsolve" { "F" } else { kind };
     let aj: Vec<Value> = a.iter().map(|row| Value::Array(row.iter().map(|e| ent_json(e, akind)).collect())).collect();
     let bj: Vec<Value> = b.iter().map(|e| ent_json(e, kind)).collect();
     o.emit(&json!({"key": key, "fn": fnname, "kind": kind, "lsq": lsq, "A": aj, "b": bj, "o": oc, "x": x,
-                   "perm": perm.iter().map(|i| i + 1).collect::<Vec<_>>(), "o2": oc2, "x2": x2}));
+                   "perm": perm.iter().map(|i| i + 1).collect::<Vec<_>>(), "colmajor2": colmajor, "o2": oc2, "x2": x2}));
 }
 
 /// TLC-generated integer systems (MC_Gauss.CaseSeq) through every solver / kind combination
